@@ -153,7 +153,48 @@ def check_c12(truth, assignments, r):
                     return False, "assignment lacks required %s" % t["name"]
                 continue
             key = str(t["id"]) if t["id"] is not None else t["name"]
-            want[key] = (1.0 if v else 0.0) if t["ty"] == "bool" else float(v)
+            want[key] = (1.0 if v else 0.0) if t["ty"] == "bool" else (_f32(v) if t["ty"] == "f32" else float(v))
         if {k: float(v) for k, v in consts.items()} != want:
             return False, "map %s, expected %s" % (consts, want)
+    return True, ""
+
+
+def _f32(x):
+    import struct
+    return struct.unpack("<f", struct.pack("<f", float(x)))[0]
+
+
+def _f32_bits(x):
+    import struct
+    return struct.unpack("<I", struct.pack("<f", float(x)))[0]
+
+
+def c12_expected(truth, a):
+    """what every override must resolve to under assignment `a` (WGSL semantics, computed independently):
+    the assigned value, else the default (a literal or `other * 2`)"""
+    val = {}
+    for t in truth:   # declaration order: a default only refers to earlier overrides
+        v = a.get(t["name"])
+        if v is None:
+            d = t["dflt"]
+            v = d["lit"] if "lit" in d else val[d["mul2"]] * 2
+        val[t["name"]] = _f32(v) if t["ty"] == "f32" else v
+    return val
+
+
+def check_c12_resolved(truth, assignments, ovres):
+    """ovres: results of `driver overrides` (naga's real process_overrides) on the maps produced by the compiled
+    OverrideConstants::constants(): the pipeline must accept each map and resolve each override to the intended value"""
+    if len(ovres) != len(assignments):
+        return False, "override resolutions %d vs %d" % (len(ovres), len(assignments))
+    for a, res in zip(assignments, ovres):
+        if res.get("result") != "ok":
+            return False, "process_overrides on the produced map: %s" % (res.get("error") or res)
+        exp = c12_expected(truth, a)
+        for t in truth:
+            got = res["values"].get(t["name"])
+            e = exp[t["name"]]
+            want = {"ty": t["ty"], "bits": _f32_bits(e) if t["ty"] == "f32" else int(e)}
+            if got != want:
+                return False, "override %s resolved to %s, expected %s under %s" % (t["name"], got, want, a)
     return True, ""
